@@ -140,6 +140,11 @@ class Sink:
                 m.writes += 1
                 raise OSError("injected sink failure")
         m.writes += 1
+        if type(b) in (bytearray, memoryview) or type(b).__module__ == "kv.bufmodels":
+            # a mutable buffer was handed over: a sink may keep a reference instead of copying
+            # (asyncio transports do when the socket is not writable); remember it with its content now
+            snap = list(SymBytes.of(b).items)
+            self.__dict__.setdefault("retained", []).append((b, snap))
         b = SymBytes.of(b)
         self.items.extend(b.items)
         if self.on_write is not None:
@@ -152,6 +157,22 @@ class Sink:
 
     def value(self) -> SymBytes:
         return SymBytes(self.items)
+
+    def retained_unchanged(self):
+        """-> (z3 Bool | bool): every mutable buffer that was handed to write() still holds the
+        bytes it held at that moment (otherwise a reference-keeping sink sees other bytes than a copying one)"""
+        import z3 as _z3
+
+        from . import kref
+
+        conj = []
+        for obj, snap in self.__dict__.get("retained", []):
+            r, why = kref.items_equal(list(SymBytes.of(obj).items), snap)
+            if r is False:
+                return False
+            if r is not True:
+                conj.append(r)
+        return _z3.And(*conj) if conj else True
 
 
 class Src:
@@ -176,6 +197,7 @@ class Src:
         self.__dict__["fail_at"] = fail_at
         self.__dict__["on_read"] = None
         self.__dict__["bad_arg"] = None
+        self.__dict__["past_end"] = 0  # how far a seek moved the position beyond the data (io.BytesIO allows it)
 
     def __getattr__(self, name):
         self.__dict__["monitor"].forbidden.append(name)
@@ -183,6 +205,80 @@ class Src:
 
     def __setattr__(self, k, v):
         self.__dict__[k] = v
+
+    # A real source may be seekable (io.BytesIO is).  kio is expected not to rely on it: any use is
+    # recorded by the monitor (C07 fails on it), but the semantics are those of io.BytesIO so that a
+    # decoder using them is followed faithfully.
+    def _len_of(self, it):
+        return it.length if type(it) is Blob else 1
+
+    def tell(self):
+        self.monitor.forbidden.append("tell")
+        n = self.past_end
+        for it in self.items[: self.i]:
+            n = n + self._len_of(it)
+        return n
+
+    def seekable(self):
+        self.monitor.forbidden.append("seekable")
+        return True
+
+    def seek(self, pos, whence=0):
+        self.monitor.forbidden.append("seek")
+        if whence == 0:
+            self.i = 0
+            self.past_end = 0
+            self.consumed = 0
+            delta = pos
+        elif whence == 1:
+            delta = pos
+        elif whence == 2:
+            self.i = _len(self.items)
+            self.past_end = 0
+            delta = pos
+        else:
+            raise ValueError("invalid whence")
+        if type(delta) is SymInt:
+            delta = delta.__index__()
+        if self.past_end:
+            delta += self.past_end
+            self.past_end = 0
+        while delta > 0 and self.i < _len(self.items):
+            ln = self._len_of(self.items[self.i])
+            if type(ln) is SymInt:
+                ln = ln.__index__()
+            if ln <= delta:
+                delta -= ln
+                self.i += 1
+            else:
+                it = self.items[self.i]
+                self.items[self.i] = Blob(delta, it.kind, it.root, it.off, it.name)
+                self.items.insert(self.i + 1, Blob(ln - delta, it.kind, it.root, it.off + delta, it.name))
+                self.i += 1
+                delta = 0
+        if delta > 0:
+            self.past_end = delta
+        while delta < 0:
+            if self.i == 0:
+                raise ValueError("negative seek position")
+            self.i -= 1
+            ln = self._len_of(self.items[self.i])
+            if type(ln) is SymInt:
+                ln = ln.__index__()
+            delta += ln
+            if delta > 0:
+                it = self.items[self.i]
+                if type(it) is not Blob:
+                    raise Unsupported("seek into the middle of a byte")
+                keep = ln - delta
+                self.items[self.i] = Blob(keep, it.kind, it.root, it.off, it.name)
+                self.items.insert(self.i + 1, Blob(delta, it.kind, it.root, it.off + keep, it.name))
+                self.i += 1
+                delta = 0
+        n = self.past_end
+        for it in self.items[: self.i]:
+            n = n + self._len_of(it)
+        return n
 
     def read(self, n=-1):
         m = self.monitor
@@ -208,7 +304,7 @@ class Src:
             need = None  # read everything
         else:
             need = n
-        if self.ended:
+        if self.ended or self.past_end:
             return b""
         if self.cut and need is not None:
             pos = (need > 0)
@@ -224,6 +320,7 @@ class Src:
                     self.cut_at = self.consumed + a
                     self.consumed = self.cut_at
                     self.ended = True
+                    del self.items[self.i:]  # the stream physically ends here
                     return S._norm(r)
         if self.limit is not None and need is not None:
             avail = self.limit - self.consumed
@@ -301,7 +398,9 @@ class Src:
                 pre = Blob(need, it.kind, it.root, it.off, it.name)
                 suf = Blob(L - need, it.kind, it.root, it.off + need, it.name)
                 out.append(pre)
-                self.items[self.i] = suf
+                self.items[self.i] = pre  # keep both pieces (a seekable source can move back)
+                self.items.insert(self.i + 1, suf)
+                self.i += 1
                 need = 0
                 break
         return out
@@ -401,7 +500,7 @@ class BytesIOModel:
         self._chk()
         src = Src.__new__(Src)
         src.__dict__.update(items=self.items, i=self.idx, consumed=0, limit=None, monitor=ProtocolMonitor(),
-                            fail_at=None, on_read=None, bad_arg=None, cut=False, cut_at=None, ended=False)
+                            fail_at=None, on_read=None, bad_arg=None, cut=False, cut_at=None, ended=False, past_end=0)
         r = src.read(n)
         self.idx = src.i
         return r
